@@ -4,5 +4,7 @@ cd "$(dirname "$0")/.."
 for f in MANIFEST.json known_findings.json lean/Driver.lean lean/DateutilVerif.lean; do
   git checkout --ours -- "$f" 2>/dev/null
 done
+# evidence files are rewritten by every run: take the incoming version on conflict
+for f in $(git diff --name-only --diff-filter=U -- evidence 2>/dev/null); do git checkout --theirs -- "$f" 2>/dev/null && git add "$f"; done
 python3 tools/gen_manifest.py
 git add MANIFEST.json known_findings.json lean/Driver.lean lean/DateutilVerif.lean
